@@ -1,0 +1,14 @@
+//go:build verif
+
+package mempool
+
+// VerifLockYield, when set by the verification harness, is called by a Pool
+// right before it takes its lock (site tells whether for reading or writing),
+// so that the harness can decide how concurrent users of one pool interleave.
+var VerifLockYield func(site string)
+
+func verifLockYield(site string) {
+	if f := VerifLockYield; f != nil {
+		f(site)
+	}
+}
